@@ -176,7 +176,7 @@ class Main(Suite):
     coq_imports = "From GoGit Require Import Model.PackParse."
     quick_n = 64
     thorough_n = 400
-    coq_chunk = 8
+    coq_chunk = 5
 
     def gen(self, rng, n, tier):
         repos = [P.GitRepo(rng, 20, ncommits=4), P.GitRepo(rng, 32, ncommits=3)]
